@@ -139,6 +139,9 @@ func (o *seekObj) step(_ *testing.T, ev []uint64) []uint64 {
 	case ev[0] == 1 && len(ev) == 3:
 		off, wh := int64(ev[1]), int(int64(ev[2]))
 		pos, err := o.rs.Seek(off, wh)
+		if err != nil {
+			pos = 0 // the number returned together with an error is not part of the property
+		}
 		obs := []uint64{uint64(pos), encErr(err)}
 		if o.sr != nil {
 			o.srSeek(off, wh)
@@ -152,7 +155,16 @@ func (o *seekObj) step(_ *testing.T, ev []uint64) []uint64 {
 		gn, ge := o.rs.Read(p)
 		obs := []uint64{uint64(int64(gn)), encErr(ge), o.ra.gotLen, o.ra.gotOff}
 		if o.sr != nil {
-			o.sra.set(n, e)
+			// the same scripted result; clipped to what is left for the SectionReader only if the event is
+			// ill-formed for it (possible only after the implementation's position has already diverged)
+			nn := int64(n)
+			if rem := o.size - int64(o.srPos()); nn > rem {
+				nn = rem
+			}
+			if nn < 0 {
+				nn = 0
+			}
+			o.sra.set(int(nn), e)
 			_, _ = o.sr.Read(p)
 			obs = append(obs, o.srPos())
 		}
@@ -393,11 +405,8 @@ func decSide(l []uint64) (sideScript, []uint64, bool) {
 	return sideScript{term: l[0], wkind: l[1], wk: l[2], chunks: l[4 : 4+n]}, l[4+n:], true
 }
 
-func encDirObs(dst *pstream) []uint64 {
-	out := []uint64{uint64(len(dst.wsizes))}
-	out = append(out, dst.wsizes...)
-	return append(out, dst.wcount, dst.whash)
-}
+// one direction: bytes accepted by the destination and their hash (Write sizes are not observed)
+func encDirObs(dst *pstream) []uint64 { return []uint64{dst.wcount, dst.whash} }
 
 type proxyObj struct{ w *hist.W }
 
@@ -427,7 +436,14 @@ func (o *proxyObj) step(t *testing.T, ev []uint64) []uint64 {
 		ioproxy.ProxyStreams(s1, s2, cb)
 		synctest.Wait()
 		obs = append(encDirObs(s2), encDirObs(s1)...) // direction a: s1 -> s2; direction b: s2 -> s1
-		obs = append(obs, uint64(s1.ncl.Load()), uint64(s2.ncl.Load()), uint64(ncb.Load()))
+		// closed flags (was Close called at least once), not counts: how often a side is closed is not part of the property
+		obs = append(obs, uint64(min(s1.ncl.Load(), 1)), uint64(min(s2.ncl.Load(), 1)), uint64(ncb.Load()))
+		o.w.Count(fmt.Sprintf("proxy.close_calls_%d_%d", s1.ncl.Load(), s2.ncl.Load()), 1)
+		for _, z := range append(append([]uint64(nil), s1.wsizes...), s2.wsizes...) {
+			if z >= 8192 {
+				o.w.Count("proxy.write_ge_8192", 1)
+			}
+		}
 		if !s1.worder || !s2.worder {
 			o.w.Count("proxy.out_of_order", 1) // the hash differs as well; counted for the evidence
 		}
